@@ -80,6 +80,9 @@ func DumpRenames(c *ctx.Ctx, obs []*core.Obligation) {
 					if !(v.Pos() >= fd.Pos() && v.Pos() < fd.End()) {
 						return true
 					}
+					if fd.Recv != nil && v.Pos() >= fd.Recv.Pos() && v.Pos() < fd.Recv.End() {
+						return true // receivers are conventionally named per type (fc, fi, bc …): not fuzzed
+					}
 					occ[obj] = append(occ[obj], c.Fset.Position(id.Pos()).Offset)
 					return true
 				})
